@@ -1099,6 +1099,9 @@ func (dns *Msg) CopyTo(r1 *Msg) *Msg {
 	if len(dns.Question) > 0 {
 		// TODO(miek): Question is an immutable value, ok to do a shallow-copy
 		r1.Question = cloneSlice(dns.Question)
+	} else {
+		// A target that was used before may still hold the question of another message.
+		r1.Question = nil
 	}
 
 	rrArr := make([]RR, len(dns.Answer)+len(dns.Ns)+len(dns.Extra))
